@@ -1,6 +1,81 @@
 import WhVerif.Util.Proto
+import WhVerif.Model.C12
 namespace WhVerif.Driver.C12
-open Lean WhVerif.Proto
-/-- ops of property C12 are named `c12.<name>`; return `none` for ops that are not ours -/
-def handle (_op : String) (_j : Json) : Option Json := none
+open Lean WhVerif.Proto WhVerif.C12
+
+def optNat? (j : Json) : Option (Option Nat) :=
+  if j.isNull then some none else (asNat? j).map some
+
+def parseRec (j : Json) : Option Rec := do
+  pure { pos := ← getNat? j "pos", ref := ← getStr? j "ref",
+         alts := ← (← getList? j "alts").mapM asStr?,
+         gt := ← (← getList? j "gt").mapM optNat?,
+         phased := ← getBool? j "phased", psKey := ← getBool? j "psKey",
+         ps := ← optNat? (← getObj? j "ps"), hp := ← optNat? (← getObj? j "hp") }
+
+def optJson : Option Nat → Json
+  | some n => ofNat n
+  | none => Json.null
+
+def rowJson (r : Row) (n50v : Option Nat) : Json :=
+  Json.mkObj [("variants", ofNat r.variants), ("phased", ofNat r.phased), ("unphased", ofNat r.unphased),
+    ("singletons", ofNat r.singletons), ("blocks", ofNat r.blocks), ("sizes", ofNatList r.sizes),
+    ("lengths", ofNatList r.lengths), ("bpSum", ofNat r.bpSum), ("het", ofNat r.het), ("hetSnvs", ofNat r.hetSnvs),
+    ("phasedSnvs", ofNat r.phasedSnvs), ("n50", optJson n50v)]
+
+def errJson : Err → Json
+  | .notSorted => Json.str "VcfNotSortedError"
+  | .typeErrorBlockNone => Json.str "TypeError"
+  | .noFuel => Json.str "no-fuel"
+
+/-- `block_n50`: nan (`none`) when there is no block of size > 1, else `compute_ng50(split_blocks, chr_lengths)`;
+`target` = summed length of the chromosomes that have split blocks -/
+def ng50 (s : Stats) (target : Nat) : Option Nat :=
+  if (s.blocks.filter (fun b => b.length > 1)).isEmpty then none
+  else some (n50 (s.splitBlocks.map span) target)
+
+structure ChromOut where
+  stats : Stats
+  json : Json
+
+/-- one chromosome: `{name, length, recs}` -/
+def doChrom (f : Flags) (onlySnvs wantBl : Bool) (j : Json) : Option (Except Err (Stats × Nat × Json)) := do
+  let recs ← (← getList? j "recs").mapM parseRec
+  let len ← getNat? j "length"
+  match readChrom f onlySnvs recs with
+  | .error e => pure (.error e)
+  | .ok vars =>
+    match chromStats f vars with
+    | none => pure (.error .noFuel)
+    | some s =>
+      let ph := phasedOf f vars
+      let bl := blockList (blocksOf ph)
+      match bl, wantBl with
+      | .error e, true => pure (.error e)
+      | _, _ =>
+        let target := if s.splitBlocks.isEmpty then 0 else len
+        let blJson := match bl with
+          | .ok rows => ofList (fun (r : BlockId × Nat × Nat × Nat) =>
+              Json.arr #[optJson r.1, ofNat r.2.1, ofNat r.2.2.1, ofNat r.2.2.2]) rows
+          | .error _ => Json.null
+        let g := ofList (fun (r : Nat × Nat × Nat) => ofNatList [r.1, r.2.1, r.2.2]) (gtf ph)
+        pure (.ok (s, target, Json.mkObj [("row", rowJson (detailed s) (ng50 s target)), ("blockList", blJson), ("gtf", g)]))
+
+/-- `c12.stats {fixMissing, fixPs, onlySnvs, blockList, chroms: [{length, recs}]}` (only the chromosomes that are processed,
+in file order) → `{chroms: [{row, blockList, gtf}], all: row}` or `{err}` -/
+def handle (op : String) (j : Json) : Option Json :=
+  if op == "c12.stats" then
+    let r : Option Json := do
+      let f : Flags := { fixMissing := ← getBool? j "fixMissing", fixPs := ← getBool? j "fixPs" }
+      let onlySnvs ← getBool? j "onlySnvs"
+      let wantBl ← getBool? j "blockList"
+      let chroms ← getList? j "chroms"
+      let outs ← chroms.mapM (doChrom f onlySnvs wantBl)
+      let rec go (acc : Stats) (target : Nat) (js : List Json) : List (Except Err (Stats × Nat × Json)) → Json
+        | [] => Json.mkObj [("chroms", Json.arr js.reverse.toArray), ("all", rowJson (detailed acc) (ng50 acc target))]
+        | .error e :: _ => Json.mkObj [("err", errJson e), ("chroms", Json.arr js.reverse.toArray)]
+        | .ok (s, t, cj) :: rest => go (addStats acc s) (target + t) (cj :: js) rest
+      pure (go {} 0 [] outs)
+    some (r.getD badInput)
+  else none
 end WhVerif.Driver.C12
